@@ -572,6 +572,10 @@ pub struct Obs {
     earliest_some: Result<bool, String>,
     is_match: Result<bool, String>,
     overlapping: Result<Vec<M>, String>,
+    /// stepwise overlapping search on one OverlappingState until it reports
+    /// no match, plus two further calls (a match after "no match" is recorded
+    /// with a marker so that it differs from any legitimate list)
+    overlapping_steps: Result<Vec<M>, String>,
 }
 
 impl Obs {
@@ -598,6 +602,33 @@ pub fn observe(ac: &AhoCorasick, kind: Kind, h: &[u8], s: usize, e: usize, ancho
         } else {
             Ok(vec![])
         },
+        overlapping_steps: if kind == Kind::Std {
+            g(|| {
+                let mut st = aho_corasick::automaton::OverlappingState::start();
+                let mut v = vec![];
+                let mut after = 0usize;
+                for _ in 0..8 * h.len() + 16 {
+                    ac.try_find_overlapping(inp(), &mut st).map_err(|e| e.to_string())?;
+                    match st.get_match() {
+                        Some(m) => {
+                            if after > 0 {
+                                v.push((usize::MAX, after, 0));
+                            }
+                            v.push(mm(m));
+                        }
+                        None => {
+                            after += 1;
+                            if after > 2 {
+                                break;
+                            }
+                        }
+                    }
+                }
+                Ok(v)
+            })
+        } else {
+            Ok(vec![])
+        },
     }
 }
 
@@ -617,6 +648,9 @@ fn obs_diff(a: &Obs, b2: &Obs) -> String {
     }
     if a.overlapping != b2.overlapping {
         v.push(format!("overlapping: {:?} vs {:?}", a.overlapping, b2.overlapping));
+    }
+    if a.overlapping_steps != b2.overlapping_steps {
+        v.push(format!("stepwise overlapping (incl. calls past the end): {:?} vs {:?}", a.overlapping_steps, b2.overlapping_steps));
     }
     v.join("; ")
 }
@@ -963,6 +997,7 @@ fn shift_obs(o: &Obs, s: usize) -> Obs {
         earliest_some: o.earliest_some.clone(),
         is_match: o.is_match.clone(),
         overlapping: o.overlapping.clone().map(|v| v.into_iter().map(sh).collect()),
+        overlapping_steps: o.overlapping_steps.clone().map(|v| v.into_iter().map(|m| if m.0 == usize::MAX { m } else { sh(m) }).collect()),
     }
 }
 
@@ -972,7 +1007,7 @@ fn check_span(rep: &Report, st: &mut Stats, ac: &AhoCorasick, pats: &Pats, kind:
     let mut problems = vec![];
     if s > e {
         // start one past end: no match of any kind
-        let empty = Obs { find: Ok(None), iter: Ok(vec![]), earliest_some: Ok(false), is_match: Ok(false), overlapping: Ok(vec![]) };
+        let empty = Obs { find: Ok(None), iter: Ok(vec![]), earliest_some: Ok(false), is_match: Ok(false), overlapping: Ok(vec![]), overlapping_steps: Ok(vec![]) };
         if a != empty {
             problems.push(format!("start = end + 1 must yield no match, got {:?}", a));
         }
